@@ -482,6 +482,7 @@ func (w *world) setOn(on bool, min uint64, useMap uint32) {
 type balDump struct {
 	Value uint64
 	Ents  []string
+	IsMap bool // model dumps only: the record is in map layout
 }
 
 func realIndex() (m map[string]*balDump, panicked string) {
@@ -516,7 +517,7 @@ func parseDump(s string) (on bool, m map[string]*balDump, err error) {
 		}
 		v, _ := strconv.ParseUint(t[i+3], 10, 64)
 		n, _ := strconv.Atoi(t[i+5])
-		d := &balDump{Value: v}
+		d := &balDump{Value: v, IsMap: t[i+4] == "1"}
 		if i+6+n > len(t) {
 			return on, nil, fmt.Errorf("bad dump entries at %d", i)
 		}
@@ -1262,8 +1263,10 @@ func runRandom(name string, seed uint64, nops int, stopAt int) *world {
 			w.opReorg()
 		case x < 78:
 			w.opRevisit(1+w.rng.Intn(3), false)
-		case x < 86:
+		case x < 85:
 			w.opUndo()
+		case x < 92:
+			w.opRestart()
 		default:
 			w.opToggle()
 		}
@@ -1598,6 +1601,12 @@ func runNamed(name string, seed uint64, stopAt int) {
 		var c int
 		fmt.Sscanf(name, "cfgrace:min=%d,usemap=%d,compr=%d", &mn, &um, &c)
 		runCfgRace(name, seed, mn, um, c == 1, stopAt)
+	case strings.HasPrefix(name, "restart:"):
+		var mn uint64
+		var um uint32
+		var c int
+		fmt.Sscanf(name, "restart:min=%d,usemap=%d,compr=%d", &mn, &um, &c)
+		runRestart(name, seed, mn, um, c == 1, stopAt)
 	case strings.HasPrefix(name, "random:"):
 		var nops int
 		fmt.Sscanf(name, "random:ops=%d", &nops)
@@ -1666,7 +1675,7 @@ func main() {
 	defer o.Close()
 	prepareCfg()
 	r.Assume = []string{
-		"a balance cache written by SaveBalances at block B is only loaded at block B (the folder name carries height, hash suffix, key length, minimum and file version): enabling through LoadBalances is modelled at the disk layer (loadAll) and exercised by the streams disk:save-reload / disk-corrupt, it is not an event of the history theorems",
+		"a balance cache written by SaveBalances at block B is only loaded at block B (the folder name carries height, hash suffix, key length, minimum and file version); the restart through the cache IS an event of the history theorems (Ev.reload: any UseMapCnt at the restart, any map iteration order while saving) and of the generated histories (restart: / opRestart / disk:save-reload); the harness picks the order of a map record's entries in the file itself (seeded) instead of leaving it to Go's map iteration, so that a history is reproducible",
 		"scripts of the generated blocks are not executed (blocks are marked trusted after the full CheckBlock, like the client's -trust flag): the property is about the index, not about script validity",
 		"addresses = the five forms the index supports (P2PKH, P2SH, P2WPKH, P2WSH, P2TR) for the full predicate (list = projection); every other address value GetAllUnspent accepts (witness versions 0..16 x program lengths 2..40, base58 versions of other networks) is queried too and must only ever be shown outputs paying to its own script (other witness versions have an address but no index by design)",
 		"config changes during a running index build are made synchronously from the load's tick callback, in a goroutine of their own (LockCfg; CFG.AllBalances = ...; Reset(); UnlockCfg as the WebUI does); free-running races between goroutines are not explored",
@@ -1761,11 +1770,16 @@ func main() {
 	}
 	// reorganisations that come back to the same heights (spending and coinbase-only blocks mixed), config changes
 	// landing between two records of a running index build
-	extra := []string{"revisit:min=1000,usemap=3,compr=0", "revisit:min=0,usemap=5000,compr=1", "cfgrace:min=1000,usemap=4,compr=0", "cfgrace:min=100000,usemap=2,compr=1"}
+	// restarts through the balances cache in the middle of the history (same / raised / lowered UseMapCnt)
+	extra := []string{"revisit:min=1000,usemap=3,compr=0", "revisit:min=0,usemap=5000,compr=1", "cfgrace:min=1000,usemap=4,compr=0", "cfgrace:min=100000,usemap=2,compr=1",
+		"restart:min=1000,usemap=3,compr=0", "restart:min=0,usemap=2,compr=1", "restart:min=546,usemap=4,compr=0"}
 	if r.Thorough() {
 		for _, mn := range []uint64{0, 546, 100000} {
 			for _, um := range []uint32{0, 2, 5000} {
 				extra = append(extra, fmt.Sprintf("revisit:min=%d,usemap=%d,compr=%d", mn, um, um&1), fmt.Sprintf("cfgrace:min=%d,usemap=%d,compr=%d", mn, um, 1-um&1))
+			}
+			for _, um := range []uint32{0, 2, 3, 5, 8, 5000} {
+				extra = append(extra, fmt.Sprintf("restart:min=%d,usemap=%d,compr=%d", mn, um, um&1))
 			}
 		}
 	}
